@@ -314,6 +314,7 @@ func corpusDart() []*modSpec {
 			Files: append([]modFile{{"models.go", src}}, extra...)}
 	}
 	return []*modSpec{
+		mk("dart-generic-named-containers", "", "package models\n\ntype S struct {\n\tA Seq[int]\n\tB Seq[string]\n\tC Dict[bool]\n\tD Dict[IdX]\n\tE Pair[int]\n\tF []Seq[int]\n}\n", modFile{"other.go", "package models\n\ntype IdX int64\n\ntype Seq[T any] []T\n\ntype Dict[V any] map[string]V\n\ntype Pair[T any] [2]T\n"}),
 		mk("dart-packages", "", "package models\n\nimport (\n\t\"time\"\n\n\t\"example.com/org/models/sub\"\n)\n\ntype E int\n\nconst (\n\tE_first E = iota // the first\n\tE_second\n)\n\ntype S struct {\n\tA sub.T\n\tB []sub.T\n\tD time.Duration\n\tT time.Time\n\tE E\n\tL []int\n}\n", modFile{"sub/sub.go", "package sub\n\ntype T struct {\n\tX []int\n\tK Kind\n}\n\ntype Kind string\n\nconst (\n\tKa Kind = \"a\"\n\tKb Kind = \"b\"\n)\n"}),
 		mk("dart-shared-anonymous-type", "dart-anonymous-helper-in-two-files", "package models\n\nimport \"example.com/org/models/sub\"\n\ntype S struct {\n\tL []int\n\tT sub.T\n}\n", modFile{"sub/sub.go", "package sub\n\ntype T struct{ X []int }\n"}),
 		mk("dart-hidden-fields", "", "package models\n\ntype Account struct {\n\tID int\n\tLogin string `json:\"login\"`\n\tPassword string `json:\"-\"`\n\tAge int `json:\"age,omitempty\"`\n\tCache []int `gomacro:\"ignore\"`\n\tNotes map[string]string `json:\"notes\" gomacro:\"ignore\"`\n\tinternal int\n}\n\ntype Holder struct {\n\tA Account\n\tL []Account `json:\"-\"`\n}\n"),
